@@ -138,6 +138,35 @@ def Expr.eval (e : Env) : Expr → TV
   | .not a => not3 (a.eval e)
   | .kw conds => condsEval e.row conds
 
+/-! ### plan level: the n-ary helpers `AND(*ops)` / `OR(*ops)` of sqlbuilder -/
+
+def mkBool : BoolOp → Expr → Expr → Expr
+  | .and, a, b => .and a b
+  | .or, a, b => .or a b
+
+/-- (connective built, helper called on the tail) of `AND` / `OR`, as extracted -/
+def fnSpec : BoolOp → BoolOp × BoolOp
+  | .and => Extracted.andFn
+  | .or => Extracted.orFn
+
+/-- `AND(*ops)` / `OR(*ops)`: no operand ↦ None, one ↦ itself, else `SQLOp(op, op1, F(*rest))` -/
+def nary : BoolOp → List Expr → Option Expr
+  | _, [] => none
+  | _, [a] => some a
+  | f, a :: b :: rest =>
+    match nary (fnSpec f).2 (b :: rest) with
+    | some t => some (mkBool (fnSpec f).1 a t)
+    | none => none
+
+/-- reference: conjunction / disjunction of a list of truth values -/
+def and3L : List TV → TV
+  | [] => some true
+  | x :: xs => and3 x (and3L xs)
+
+def or3L : List TV → TV
+  | [] => some false
+  | x :: xs => or3 x (or3L xs)
+
 def Operand.usesOth : Operand → Bool
   | .othG => true
   | _ => false
@@ -454,6 +483,15 @@ def evalAgg (sch : Schema) (db : Db) (p : Plan) : Option AggVal :=
       aggOf f (if d then dedup vals else vals)
 
 def evalSelect (sch : Schema) (db : Db) (s : Sel) : Option (List Row) := evalRows sch db (queryForSelect s)
+
+/-- `Iteration.next`: a fetched row becomes an object unless the guard on its id column fires -/
+def deliver (g : IdGuard) (r : Row) : Option Row :=
+  match g with
+  | .isNone => some r                                  -- an id of the table is never NULL
+  | .falsy => if r.id = 0 then none else some r
+
+/-- `list(select)`: what iteration hands out for the fetched rows (`none` = Python None) -/
+def iterSelect (rows : List Row) : List (Option Row) := rows.map (deliver Extracted.iterNullGuard)
 
 /-! ## Plan level: keyword equalities -/
 
